@@ -14,7 +14,8 @@ CHECKS = {
         design_ref='DESIGN.md section 4 (C08), section 8',
         note='D/shape: n in {2,3} quick, {2,3,4,6} thorough; piles/hole cards capped as listed in the evidence. Assumes inv08 '
              '(natively monitored), purity/determinism of can_win_now and total_pot_amount (callee contracts), pyvc encoding of '
-             'Python semantics. Assertion failures after an accepted verifier are C07 obligations.',
+             'Python semantics. Assertion failures after an accepted verifier are C07 obligations.'
+         ' Scan: no read-only member of State (88 property getters, get_*, can_*, verify_*) writes to the object.',
         technique='sidecar contracts + own VC generator (symbolic execution of the real AST) + z3/cvc5; native replay of counter-models'),
 }
 
@@ -28,7 +29,8 @@ CHECKS['C19'] = dict(
     design_ref='DESIGN.md section 4 (C19), section 8',
     note='D/shape for clean_values/__post_init__ (n listed in evidence); card-SEQUENCE text forms only by a bounded stand-in (label B, '
          'reported separately, never counted); user-supplied divmod/rake not covered; float arithmetic treated as real.'
-         ' The argument forms of burn_card / deal_hole / deal_board (None, count, sequence, one bare Card) are covered by the shared C06 obligations, relabelled C19.',
+         ' The argument forms of burn_card / deal_hole / deal_board (None, count, sequence, one bare Card) are covered by the shared C06 obligations, relabelled C19.'
+         ' White space other than the blank as separator (stand-in); divmod / rake on float and Decimal grids, parts adding up exactly in the same arithmetic (stand-in, label B).',
     technique='sidecar contracts + own VC generator + z3 (linear / nonlinear real arithmetic); exhaustive closed evaluation for 70 cards')
 
 CHECKS['C04'] = dict(
@@ -44,7 +46,8 @@ CHECKS['C04'] = dict(
     note='E obligations: complete for the stated domain, back end is CPython running the real code. quick tier covers the 52-card five-card '
          'types through the 7 462-key space (assumes unique factorisation of the rank-prime products); thorough tier enumerates all subsets '
          'and does not. Subsets of 6+ cards are not enumerated.'
-         ' Also: the real table holds no key beyond the combinations the rules accept (no entry of another card count); entry identity is modelled by key tags (same key, same object).',
+         ' Also: the real table holds no key beyond the combinations the rules accept (no entry of another card count); entry identity is modelled by key tags (same key, same object).'
+         ' One-shot iterables into Hand.__init__; every class wired to its own table and direction in fresh interpreters, base-first and subclass-first.',
     technique='exhaustive closed evaluation of nullary table constructors and finite card domains against an independent rule spec + '
               'deductive VCs (pyvc/z3) for the comparison wrappers')
 
@@ -59,7 +62,8 @@ CHECKS['C18'] = dict(
     design_ref='DESIGN.md section 4 (C18), section 8',
     note='floats treated as reals; equities with all cards given only (sampling / averaging not covered); shapes: players <= 4 (quick) / 6 '
          '(thorough), ICM players <= 4 (quick: paid <= 2 for 4 players) / 5 (thorough, paid <= 2); hand strengths abstract (C04/C05 contracts).'
-         ' E task on the selection step of calculate_equities: only legal deals (no card twice among holes and board) are kept, each with the stub deck of the cards not in play.',
+         ' E task on the selection step of calculate_equities: only legal deals (no card twice among holes and board) are kept, each with the stub deck of the cards not in play.'
+         ' parse_range is primed with other rank orders first (what a notation denotes does not depend on what was parsed before); ICM on permuted stacks against an exact Malmuth-Harville recursion is a bounded stand-in (label B).',
     technique='exhaustive closed evaluation of the notation domain + VCs from symbolic execution (z3) + exact rational identities / '
               'coefficient certificates (sympy) on the real code')
 
@@ -94,7 +98,8 @@ CHECKS['C01'] = dict(
     note='D/shape: n in {2,3} quick, {2,3,4} thorough, at most R=2 run-outs; chips as mathematical integers; default divmod executed, rake '
          'by its C19 contract (user-supplied helpers assumed to satisfy it); exceptions leaving a function part-way are C07 obligations; '
          'one known finding (F6a, everybody mucks) is matched by obligation and witness; precondition components are evaluated natively '
-         'on random real hands on every run (guard).',
+         'on random real hands on every run (guard).'
+         ' The default helpers that split a pot (utilities.rake / divmod) are proved here as well (shared C19 contracts, D-infinity); every contract run also checks that no two rows of a per-player / per-street field are one object.',
     technique='sidecar contracts (invariant components) + own VC generator over the real AST with contract cuts and loop-invariant cuts + z3; '
               'native replay of counter-models; native guard against vacuity')
 
@@ -174,7 +179,8 @@ CHECKS['C06'] = dict(
     design_ref='DESIGN.md section 4 (C06), section 8',
     note='D/shape: piles are capacity-bounded symbolic sequences (capacities in the evidence); explicitly supplied known cards are assumed '
          'dealable (the condition under which the engine does not warn); shuffles are arbitrary permutations.'
-         ' Also: the card burnt / the cards dealt are the ones named by the argument, or as many as asked -- the argument ranging over every documented form (None, a natural number, a sequence, ONE bare Card object).',
+         ' Also: the card burnt / the cards dealt are the ones named by the argument, or as many as asked -- the argument ranging over every documented form (None, a natural number, a sequence, ONE bare Card object).'
+         ' Discards from a three-card hand (two unknown cards next to a known one); row-aliasing obligation (per-street discard piles are distinct objects).',
     technique='sidecar contracts + own VC generator over the real AST + z3, pointwise (skolem card) conservation; native replay of counter-models')
 
 CHECKS['C10'] = dict(
@@ -189,7 +195,8 @@ CHECKS['C10'] = dict(
          'due. Each is a clause on the real function against spec/dealing.py, all values symbolic per shape.',
     design_ref='DESIGN.md section 4 (C10), section 8',
     note='D/shape (players, cards per prescription / hand <= H, boards). Summing the dealing operations of a street to "exactly the '
-         'prescribed cards" is an induction over the log (paper step). Board-card landing: C14; cards come from cards not in play: C06.',
+         'prescribed cards" is an induction over the log (paper step). Board-card landing: C14; cards come from cards not in play: C06.'
+         ' Row-aliasing obligation: the pending-deal queues of the players are distinct objects.',
     technique='sidecar contracts + own VC generator over the real AST + z3 against an independent rule spec; native replay of counter-models')
 
 CHECKS['C05'] = dict(
@@ -230,7 +237,8 @@ CHECKS['C07'] = dict(
     note='D/shape: n in {2,3}, 2 streets, <= 2 run-outs, loops unrolled to 6. Two known findings (F6a everybody mucks, F6b pot without '
          'contender) are matched by obligation; everything else is proved under the hypothesis excluding them. Hypotheses of the statement '
          '(deck large enough; hands reaching a showdown are known) are assumptions. That the progress lemmas bound the length of every '
-         'history is a paper argument. Components are evaluated natively on random real hands on every run (guard).',
+         'history is a paper argument. Components are evaluated natively on random real hands on every run (guard).'
+         ' The phase order around an all-in (run-out choice offered once, dealing resumes where the all-in happened) is carried by the shared C14 contracts of _begin_showdown / _end_showdown / _end_bet_collection.',
     technique='sidecar contracts (invariant components per phase) + own VC generator over the real AST with contract cuts and loop-invariant '
               'cuts + z3; AST call-graph scan; native replay of counter-models; native guard against vacuity')
 
@@ -247,7 +255,8 @@ CHECKS['C12'] = dict(
          'on random hands are a bounded stand-in, reported separately and never counted.',
     design_ref='DESIGN.md section 4 (C12), section 8',
     note='level other: premises proved (D/shape: n, hand types, boards as listed), composition on paper, B stand-in (twin runs).'
-         ' (m0): get_hand / get_up_hand against "the best hand from the known / face-up hole cards and the board"; abstract hands are a function of the card sequences (congruence axioms).',
+         ' (m0): get_hand / get_up_hand against "the best hand from the known / face-up hole cards and the board"; abstract hands are a function of the card sequences (congruence axioms).'
+         ' Scan: no read-only member of State writes to the object (a cached hand would go stale after a draw).',
     technique='sidecar contracts + own VC generator over the real AST + z3 (abstract hands) for the lemmas; paper composition; bounded twin-run stand-in')
 
 CHECKS['C15'] = dict(
@@ -263,7 +272,8 @@ CHECKS['C15'] = dict(
          'over the log -- a paper step; replay-the-log and copy-and-compare runs on random hands are a bounded stand-in, never counted.',
     design_ref='DESIGN.md section 4 (C15), section 8',
     note='level other: per-operation clauses proved (D/shape) + structural scans (no bound); the induction over the log and deepcopy itself '
-         'are assumptions; B stand-in reported separately.',
+         'are assumptions; B stand-in reported separately.'
+         ' Refusal-leaves-nothing obligations of the 16 operations (shared C08 frames); scan: no read-only member of State writes to the object.',
     technique='sidecar contracts + own VC generator over the real AST + z3 for record exactness and log discipline; AST scans for writers, '
               'randomness and sharing; bounded replay / copy stand-in')
 
@@ -296,7 +306,8 @@ CHECKS['C16'] = dict(
          '(dumps/loads/dumps, user-defined fields) and whole-hand replay are a bounded stand-in (label B), never counted.',
     design_ref='DESIGN.md section 4 (C16), section 5, section 8',
     note='level other. Amounts are a sample (int(str(k)) == k, parse_value(str(v)) == v assumed); the reflection loop does not branch on field '
-         'values (one run per variant with sentinel values); tomllib is an external library; the repair ladder is covered only by the stand-in.',
+         'values (one run per variant with sentinel values); tomllib is an external library; the repair ladder is covered only by the stand-in.'
+         ' Game-defining fields survive the text (save, load, save again) for each of the 11 variants; isolation: no mutable default argument in notation.py, a hand keeps its own user fields whatever was loaded before.',
     technique='exhaustive closed evaluation of the writer/parser pair and of game reconstruction (real code, finite domain) + AST scan; bounded '
               'round-trip / replay stand-in')
 
@@ -312,7 +323,8 @@ CHECKS['C17'] = dict(
          'independent reference rendering (label B), never counted.',
     design_ref='DESIGN.md section 4 (C17), section 5, section 8',
     note='level other: lemmas by structural scan (no bound) + C01; text layer and parser inverse bounded (random NT/FT hands, 2-4 players, '
-         'equal stacks, every viewer seat).',
+         'equal stacks, every viewer seat).'
+         ' The stand-in also turns boards over one card at a time (several BoardDealing operations per street).',
     technique='AST data-flow scans of the real source + the C01 invariant for the lemmas; bounded generate / parse / replay / regenerate stand-in')
 
 NOT_APPLICABLE = {
